@@ -66,15 +66,15 @@ def params(desc):
     if regime == "R3":
         ps += [("d%d" % i, "int", 1, None) for i in range(n)]
     if typed:
-        ps += [("k%d" % i, "int", 0, 1) for i in range(n)]
+        ps += [("k%d" % i, "sel", 0, 1) for i in range(n)]
     if n == 0:
         ps.append(("cleared", "bool", None, None))
-    P = ("p", "int", -1, n - 1)
-    S = ("s", "int", 0, n - 1)
-    Bf = ("b", "int", 0, nb(n) - 1)
+    P = ("p", "sel", -1, n - 1)
+    S = ("s", "sel", 0, n - 1)
+    Bf = ("b", "sel", 0, nb(n) - 1)
     L = ("L", "int", 1, None)
     D = ("D", "int", 0, None)  # 0 = no explicit id
-    K = ("K", "int", 0, 1)
+    K = ("K", "sel", 0, 1)
     if op == "add":
         ps += [P, Bf, L]
         if regime == "R3":
@@ -110,11 +110,11 @@ def params(desc):
     elif op == "sort":
         ps += [P, ("reverse", "bool", None, None), ("deep", "bool", None, None)]
     elif op == "set_data":
-        ps += [S, L, ("mode", "int", 0, 2), ("wc", "int", 0, 2)]
+        ps += [S, L, ("mode", "sel", 0, 2), ("wc", "sel", 0, 2)]
         if regime == "R3":
             ps.append(D)
     elif op == "meta":
-        ps += [S, ("which", "int", 0, 4), ("mk", "int", 0, 1), ("V", "int", 0, None), ("pre", "int", 0, 2)]
+        ps += [S, ("which", "sel", 0, 4), ("mk", "sel", 0, 1), ("V", "int", 0, None), ("pre", "sel", 0, 2)]
     elif op == "filter":
         ps += [("v%d" % i, "bool", None, None) for i in range(n)]
     else:
